@@ -222,6 +222,7 @@ pub fn run(env: &Env) -> i32 {
         out
     });
     // (a.ii) random unicode texts with mixed newline classes
+    let mk = || {
     let piece = proptest::prop_oneof![
         4 => proptest::string::string_regex("[a-zA-Z0-9_(){};=+*/<>. ]{1,12}").unwrap(),
         2 => proptest::strategy::Just("\n".to_string()),
@@ -231,8 +232,9 @@ pub fn run(env: &Env) -> i32 {
         1 => proptest::string::string_regex("\\PC{1,6}").unwrap(),
         1 => proptest::strategy::Just("\u{1f600}\u{e9}\u{4e16}".to_string()),
     ];
-    let strat = proptest::collection::vec(piece, 0..120);
-    value_stream(env, &mut st, "conversion-random", env.tier.n(5000, 100_000), strat, |pieces: &Vec<String>, s| {
+    proptest::collection::vec(piece, 0..120)
+    };
+    value_stream(env, &mut st, "conversion-random", env.tier.n(5000, 100_000), mk, |pieces: &Vec<String>, s| {
         let text: String = pieces.concat();
         let mut out = Vec::new();
         let starts = token_starts(&text);
